@@ -52,7 +52,7 @@ def replay(r):
         motifs["m%d" % q] = torch.from_numpy(pw)
     X = C.real_onehot(seqs, 4).type(torch.float32)
     thr = r.get("threshold", 0.3)
-    eps, bin_size = 0.0001, 0.5
+    eps, bin_size = 0.0001, float(Fraction(r.get("bin", "1/2")))
 
     if r.get("views") == "history":
         try:
@@ -130,6 +130,13 @@ def replay(r):
                         elif abs(sc - sthr) <= 1e-6:
                             want.append(None)          # float32 tie: either outcome
             got = [(int(a), int(b_), int(c), d, float(e)) for a, b_, c, d, e in zip(res[q]["sequence_name"], res[q]["start"], res[q]["end"], res[q]["strand"], res[q]["score"])]
+            # reported p-value = the table entry of the hit's own score bin (bins of width bin_size counted from the table's lowest score)
+            for (a, b_, c, d, e), pv in zip(got, res[q]["p-value"]):
+                mat = lo if d == "+" else lo[::-1, ::-1]
+                sm, tab = _pwm_to_mapping(numpy.ascontiguousarray(mat), bin_size)
+                cand = {float(2.0 ** tab[j]) for j in (int((e - 1e-9) / bin_size) - sm, int(e / bin_size) - sm, int((e + 1e-9) / bin_size) - sm) if 0 <= j < len(tab)}
+                if not any(abs(float(pv) - cv) <= 1e-9 * max(1.0, cv) for cv in cand):
+                    return True, "motif %s: hit (seq %d, start %d, strand %s, score %.4f) reports p-value %.6g, the table entry of its score bin is %s (bin_size %s)" % (name, a, b_, d, e, float(pv), sorted(cand), bin_size)
             need = [x for x in want if x is not None]
             gset = {(a, b_, c, d) for a, b_, c, d, e in got}
             for x in need:
@@ -158,6 +165,7 @@ def worker(cfg):
     if kind == "hits":
         Ls, ws, TAB = cfg["Ls"], cfg["ws"], cfg["T"]
         tot, W, nm = sum(Ls), sum(ws), len(ws)
+        BIN = Fraction(cfg.get("bin", "1/2"))
 
         def body(ctx):
             X = np.empty((tot,), dtype=object)
@@ -403,6 +411,8 @@ def configs(tier):
     q = tier == "quick"
     cf = [dict(kind="hits", Ls=[3], ws=[2], T=3), dict(kind="hits", Ls=[1], ws=[2], T=2), dict(kind="hits", Ls=[3], ws=[1, 2], T=3),
           dict(kind="hits", Ls=[3, 3], ws=[3], T=2), dict(kind="hits", Ls=[2], ws=[2], T=2), dict(kind="hits", Ls=[0, 2], ws=[1], T=2)]
+    # bin sizes whose reciprocal is not an integer
+    cf += [dict(kind="hits", Ls=[2], ws=[2], T=3, bin="3/4"), dict(kind="hits", Ls=[3], ws=[2], T=2, bin="2")]
     if not q:
         cf += [dict(kind="hits", Ls=[5], ws=[2], T=3), dict(kind="hits", Ls=[4], ws=[1, 2], T=3), dict(kind="hits", Ls=[4, 2], ws=[2, 3], T=3), dict(kind="hits", Ls=[6], ws=[4], T=2)]
     pw1 = [[0.7, 0.1], [0.1, 0.1], [0.1, 0.7], [0.1, 0.1]]
